@@ -412,6 +412,84 @@ pub fn run(r: &Report) {
     );
     r.expect_count("CLI option product", expected, counted);
     r.extra("process_runs", json!(counted));
+    if !r.stopped() {
+        big_documents(r);
+    }
+}
+
+/// Documents larger than any plausible I/O buffer (1 KiB .. > 64 KiB pipe capacity), mostly
+/// multi-byte text, in three byte alignments so that every power-of-two offset falls inside
+/// a character for some alignment: input and output routes x modes, default options.
+fn big_documents(r: &Report) {
+    let line = "// これは日本語のコメントです。削除されない行🧹。\n";
+    let block = "<!-- <time-limited to=\"2001-01-01 00:00:00\"> -->\n期限切れ🧹\n<!-- </time-limited> -->\n";
+    let sizes: &[usize] = if r.tier == Tier::Quick { &[60, 1200] } else { &[20, 60, 150, 1200, 3000] };
+    let mut docs: Vec<String> = vec![];
+    for &n in sizes {
+        for pre in ["", "x", "xy"] {
+            docs.push(format!("{pre}{}{block}{}", line.repeat(n), line.repeat(3)));
+            docs.push(format!("{pre}{}", line.repeat(n)));
+        }
+    }
+    let modes = ["clean", "list-json", "list-all"];
+    let radices = [docs.len(), modes.len(), 2, 3];
+    let expected: u64 = radices.iter().map(|&x| x as u64).product();
+    let counted = explore_product(
+        &radices,
+        || W {
+            l: r.local(),
+            wd: WorkDir::new(),
+        },
+        |w: &mut W, dg| {
+            let stdin = dg[2] == 1;
+            let out = match (dg[3], stdin) {
+                (0, _) => "stdout",
+                (1, _) => "file",
+                (_, false) => "inplace",
+                (_, true) => "file",
+            };
+            let c = CliCase {
+                src: docs[dg[0]].clone(),
+                mode: modes[dg[1]].into(),
+                stdin,
+                out: out.into(),
+                delims: None,
+                names: None,
+                offset: None,
+                now: NOWS[0].into(),
+                flag_targets: vec![],
+                file_targets: None,
+                tz: Some("UTC".into()),
+                lc_all: "C".into(),
+            };
+            let l = &mut w.l;
+            l.eval();
+            l.transition(1);
+            let h = hash64(&[c.to_json().to_string().as_bytes()]);
+            l.state(h);
+            l.nontrivial(h);
+            match check(&c, &w.wd) {
+                Err(e) => l.r.machinery_failure(format!("cli harness: {e} (big document #{})", dg[0])),
+                Ok(res) => {
+                    l.trace_validated(1);
+                    l.class("big-multibyte-document");
+                    if let Some((class, detail)) = res {
+                        let detail: String = detail.chars().take(400).collect();
+                        l.violation(Violation {
+                            prop: "C20".into(),
+                            class,
+                            case: c.to_json(),
+                            detail,
+                        });
+                    }
+                }
+            }
+        },
+        &|| r.stopped(),
+    );
+    r.expect_count("CLI big-document product", expected, counted);
+    r.extra("big_document_process_runs", json!(counted));
+    r.extra("big_document_sizes_bytes", json!(docs.iter().map(|d| d.len()).collect::<Vec<_>>()));
 }
 
 fn ast_docs(n: usize) -> Vec<String> {
@@ -431,6 +509,7 @@ fn ast_docs(n: usize) -> Vec<String> {
         blank: true,
         rich: false,
         short_unwrap: false,
+        shared_lines: false,
     };
     let mut all: Vec<String> = vec![];
     let d = Delims { ds: "{DS}", de: "{DE}" };
